@@ -3,7 +3,8 @@ R1 clamp / leaky_clamp by enumeration of the orderings of (input, min, max); R2 
 options exist; R3 Whalley-Wilmott forward/width; R4 svi_variance, bilerp, box_muller, realized_volatility.
 Added after the seeded-defect rounds: R5 float bounds are not rounded to the default dtype; R6 module forwards keep no state; gamma is any real number in the width identity.
 Third round: R7 Clamp / LeakyClamp / SVIVariance / WhalleyWilmott keep the configuration they were created with.
-Round 7: R3 the band of WhalleyWilmott.forward is compared with the documented half-width formula itself, whether or not it goes through ww_width."""
+Round 7: R3 the band of WhalleyWilmott.forward is compared with the documented half-width formula itself, whether or not it goes through ww_width.
+Round 9: R3 call history 'cost sweep' on one WhalleyWilmott module (evaluate, change the underlier's cost rate, evaluate again)."""
 import ast
 import re
 
@@ -294,6 +295,33 @@ def check(ctx, run):
                 from fractions import Fraction
                 width_ = Op("pow", (Op("div", (Op("mul", (Op("mul", (Op("mul", (cost_, Fraction(3, 2))), Op("square", (gammas[0],)))), spot_)), a_)), Fraction(1, 3)))
                 okf = same(Op("sub", (hi, lo)), Op("mul", (2, width_)), keep_shape_ops=False)
+    # ... for the CURRENT cost of the underlier: evaluate, change the cost rate, evaluate again on the same module (a cost sweep) - the second band
+    # is computed from the new rate (band constants remembered on the module under a key without the cost are not)
+    from ..source import FuncInfo as _FI
+    drv = _FI("synthetic.ww_cost_sweep", fwd.module, ast.parse("def history(ww, x, c2):\n    w1 = ww(x)\n    ww.derivative.underlier.cost = c2\n    w2 = ww(x)\n    return w1, w2\n").body[0])
+    ww2 = Obj(M + "ww.WhalleyWilmott", "ww", {"a": a_, "bs": Sym("ww.bs", ("callable",))})
+    ww2.attrs["derivative"] = Obj("pfhedge.instruments.derivative.european.EuropeanOption", "deriv", {"strike": W.fl("K")})
+    c2 = W.fl("new_cost")
+    try:
+        hres = [r_ for r_ in interp.explore(drv, [ww2, inp, c2], {}, max_paths=40) if not r_["raises"]]
+    except Unsupported as ex:
+        raise AnalysisError(f"WhalleyWilmott cost sweep: {ex}")
+    if not hres:
+        raise AnalysisError("WhalleyWilmott cost sweep: no non-raising path")
+    stale = []
+    for r_ in hres:
+        w1_, w2_ = r_["value"]
+        n1 = {x_.name for x_ in walk(w1_) if isinstance(x_, Sym)}
+        n2 = {x_.name for x_ in walk(w2_) if isinstance(x_, Sym)}
+        if "new_cost" not in n2:
+            stale.append("after underlier.cost = new_cost the band does not depend on new_cost")
+        if any(n_.endswith(".cost") for n_ in n2):
+            stale.append("after underlier.cost = new_cost the band is still computed from the old cost rate")
+    stale = sorted(set(stale))
+    run.oblige("C20.R3", "WhalleyWilmott: history 'cost sweep' (evaluate, change the cost rate, evaluate again)", not stale, "; ".join(stale))
+    if stale:
+        run.fail(Finding("C20.R3", fwd.qualname, "history 'cost sweep': " + "; ".join(stale), "the no-transaction band is computed from a cost rate that is no longer the underlier's",
+                         file=str(prog.modules[fwd.module].path), line=fwd.node.lineno, case="cost sweep"))
     run.oblige("C20.R3", "WhalleyWilmott.forward == clamp(prev_hedge, delta - width, delta + width)", okf, str(v)[:200])
     if not okf:
         run.fail(Finding("C20.R3", fwd.qualname, str(v)[:200], "the no-transaction band is not [delta - width, delta + width] around the Black-Scholes delta with width(gamma, K e^s, cost, a)",
